@@ -301,8 +301,11 @@ def families(world, tier):
 
     g_a, g_b, g_c = gbs[0][1], gbs[2][1], gbs[5][1]
     gts = []
-    for dg, g in (({}, g_a), ({"shape": 0}, g_b), ({"aff": 0}, g_c), ({"box": "gcp"}, gcs[0][1]), ({"box": "gcp-rebuilt"}, gcs[2][1]),
-                  ({"box": "gcp-pix"}, gcs[3][1]), ({"crs": crs_small[1][0]}, GeoBox((10, 20), A0, crs_small[1][1]))):
+    boxes = [({}, g_a), ({"shape": 0}, g_b), ({"box": "gcp"}, gcs[0][1]), ({"box": "gcp-pix"}, gcs[3][1]),
+             ({"crs": crs_small[1][0]}, GeoBox((10, 20), A0, crs_small[1][1]))]
+    if tier == "thorough":
+        boxes += [({"aff": 0}, g_c), ({"box": "gcp-rebuilt"}, gcs[2][1])]
+    for dg, g in boxes:
         for dt, how in (({}, (4, 5)), ({"tile": 1}, (4, 6)), ({"tile": 0}, (5, 5)), ({"chunks": "v"}, ((4, 6), (5, 15))),
                         ({"chunks": "v2"}, ((4, 6), (15, 5))), ({"chunks": "reg-as-var"}, ((4, 4, 2), (5, 5, 5, 5)))):
             gts.append(({**dg, **dt}, GeoboxTiles(g, how)))
